@@ -3,7 +3,7 @@
 META = dict(
     level='exploration', engine='direct harness: MPI_Pack / MPI_Unpack of marker tiles through the real type constructors',
     technique='runtime monitoring: exhaustive enumeration of the stated parameter box; every datatype built by the real parsec_matrix_define_* / parsec_matrix_adt_* functions is observed through MPI_Pack of a marker tile and MPI_Unpack into a poisoned tile and compared with a reference enumeration of the mathematical region; extents read back with MPI_Type_get_extent; ASan+UBSan',
-    text='Every (m, n, ld, diag, uplo) of the stated box (m,n in 1..12, ld in m..m+3, both diag values, full/upper/lower) is built for int, double and double complex elements through parsec_matrix_define_datatype, the direct triangle/rectangle/contiguous constructors, parsec_matrix_arena_datatype_define_type and the adt shorthands. The packed byte string must be exactly the elements of the mathematical region in column-major order, an unpack must write exactly those elements of a poisoned tile (guard zones around the tile stay intact), and [lb, lb+extent) must cover the tile. The thorough tier extends the box to m,n <= 24 and explicit extents (resized = exact, larger). Exhaustive for the box; says nothing outside it.',
+    text='Every (m, n, ld, diag, uplo) of the stated box (m,n in 1..12, ld in m..m+3, both diag values, full/upper/lower) is built for int, double and double complex elements through parsec_matrix_define_datatype, the direct triangle/rectangle/contiguous constructors, parsec_matrix_arena_datatype_define_type and the adt shorthands. The packed byte string must be exactly the elements of the mathematical region in column-major order, an unpack must write exactly those elements of a poisoned tile (guard zones around the tile stay intact), and [lb, lb+extent) must cover the tile. The thorough tier extends the box to m,n <= 32, ld <= m+4 and explicit extents (resized = exact, larger). Exhaustive for the box; says nothing outside it.',
     note='Trusts Open MPI\'s MPI_Pack/MPI_Unpack on MPI_COMM_SELF (homogeneous: a byte gather/scatter in type-map order), the reference region enumeration in the harness, and the marker encoding (distinct bytes per element). Extent oracle is "covers the tile" (and "equals the request" when resized >= 0), not a particular formula.',
     design_ref='DESIGN.md §4 C19')
 
@@ -28,7 +28,7 @@ def run(ctx):
     exe = ctx.harness('c19_matrixtypes')
     runs = [dict(mmax=12, ldextra=3, rmodes=1)]
     if thorough:
-        runs.append(dict(mmax=24, ldextra=3, rmodes=3))
+        runs.append(dict(mmax=32, ldextra=4, rmodes=3))
     for k, cfg in enumerate(runs):
         cmd = [exe, '--mmax', cfg['mmax'], '--ldextra', cfg['ldextra'], '--resized-modes', cfg['rmodes'], '--seed', ctx.seed]
         r = ctx.run([str(c) for c in cmd], timeout=3600, stall_s=120, tag='box%d' % k)
@@ -59,4 +59,4 @@ def run(ctx):
             ctx.cov['exhaustive'] = (st == 'ok')
             ctx.cov['exhaustive_box'] = 'm,n in 1..12, ld in m..m+3, diag in {0,1}, uplo in {full,upper,lower}, element types int/double/double complex, all entry points'
         else:
-            ctx.cov['extended_box'] = 'm,n in 1..24, ld in m..m+3, resized in {-1, ld*n, ld*n+5} for full tiles' + ('' if st == 'ok' else ' (not clean)')
+            ctx.cov['extended_box'] = 'm,n in 1..32, ld in m..m+4, resized in {-1, ld*n, ld*n+5} for full tiles' + ('' if st == 'ok' else ' (not clean)')
